@@ -44,6 +44,11 @@ var c11Concrete = []string{
 	"[BITS 32] ; QX EQU 4 ; MOV EAX,[EBX+ECX*QX] ; NOP",
 	"[BITS 32] ; QX EQU 2 ; QY EQU QX*8 ; MOV EAX,[ESI*QX+QY] ; MOV [EBX+EDI*QX+QY],ECX",
 	"QX EQU 4 ; MOV AX,[EBX+ECX*QX] ; NOP",
+	// the name is an alias of something that does not fold to a number, used twice
+	"NOP ; NOP ; tbl: ; DB 0x11 ; QX EQU tbl ; DW QX ; DW QX",
+	// a value of exactly zero as displacement, register first
+	"[BITS 32] ; QX EQU 0 ; QY EQU 4 ; MOV EAX,[EBX+QX] ; MOV ECX,[EBX+QY] ; MOV EDX,[EBX+ESI+QX]",
+	"QX EQU 0 ; MOV AL,[SI+QX] ; MOV [BX+QX],AL",
 	// the name used in a product first, then again
 	"QX EQU 512 ; DW QX*18 ; DW QX ; MOV AX,QX",
 }
